@@ -17,13 +17,13 @@ where
       if k.value.category == .namespace then stripNsList ks else stripNs k :: stripNsList ks
 
 /-- The declarations of every non-namespace node, in raw document order. -/
-def declsOf : Tree → List (List (Nat × Nat))
+def declsOfTree : Tree → List (List (Nat × Nat))
   | .node v ks => (Tree.node v ks).nsDecls :: declsOfList ks
 where
   declsOfList : List Tree → List (List (Nat × Nat))
     | [] => []
     | k :: ks =>
-      if k.value.category == .namespace then declsOfList ks else declsOf k ++ declsOfList ks
+      if k.value.category == .namespace then declsOfList ks else declsOfTree k ++ declsOfList ks
 
 /-- Pointwise sublist. -/
 inductive AllSub : List (List (Nat × Nat)) → List (List (Nat × Nat)) → Prop
@@ -62,7 +62,7 @@ def declsOfKids : List Tree → List (Nat × Nat)
     | .namespace p n => (p, n) :: declsOfKids ks
     | _ => []
 
-theorem category_namespace_iff (v : Value) :
+theorem category_namespace_iff_ex (v : Value) :
     (v.category == Category.namespace) = true ↔ ∃ p n, v = .namespace p n := by
   cases v <;> simp [Value.category]
 
@@ -72,13 +72,13 @@ theorem nsDecls_node (v : Value) (ks : List Tree) : (Tree.node v ks).nsDecls = d
   | nil => rfl
   | cons k rest ih =>
     by_cases hc : (k.value.category == Category.namespace) = true
-    · obtain ⟨p, n, hv⟩ := (category_namespace_iff _).1 hc
+    · obtain ⟨p, n, hv⟩ := (category_namespace_iff_ex _).1 hc
       rw [List.takeWhile_cons]
       simp only [hc, ↓reduceIte, List.filterMap_cons]
       simp only [hv, declsOfKids]
       rw [ih]
     · have hv : ∀ p n, k.value ≠ .namespace p n := fun p n h =>
-        hc ((category_namespace_iff _).2 ⟨p, n, h⟩)
+        hc ((category_namespace_iff_ex _).2 ⟨p, n, h⟩)
       rw [List.takeWhile_cons]
       simp only [hc, Bool.false_eq_true, ↓reduceIte, List.filterMap_nil]
       unfold declsOfKids
@@ -91,7 +91,7 @@ theorem nsDecls_node (v : Value) (ks : List Tree) : (Tree.node v ks).nsDecls = d
 structure NsShrink (t' t : Tree) : Prop where
   value : t'.value = t.value
   strip : stripNs t' = stripNs t
-  decls : AllSub (declsOf t') (declsOf t)
+  decls : AllSub (declsOfTree t') (declsOfTree t)
 
 theorem NsShrink.refl (t : Tree) : NsShrink t t := ⟨rfl, rfl, AllSub.refl _⟩
 
@@ -106,7 +106,7 @@ theorem stripNsList_removeNsKid (pfx : Nat) (ks : List Tree) :
   | nil => rfl
   | cons k rest ih =>
     by_cases hc : (k.value.category == Category.namespace) = true
-    · obtain ⟨p, n, hv⟩ := (category_namespace_iff _).1 hc
+    · obtain ⟨p, n, hv⟩ := (category_namespace_iff_ex _).1 hc
       simp only [removeNsKid, hv]
       by_cases hp : p = pfx
       · simp [hp, stripNs.stripNsList, hc]
@@ -115,26 +115,26 @@ theorem stripNsList_removeNsKid (pfx : Nat) (ks : List Tree) :
     · have : removeNsKid pfx (k :: rest) = k :: rest := by
         unfold removeNsKid
         split
-        · rename_i p n h; exact absurd ((category_namespace_iff _).2 ⟨p, n, h⟩) hc
+        · rename_i p n h; exact absurd ((category_namespace_iff_ex _).2 ⟨p, n, h⟩) hc
         · rfl
       rw [this]
 
 theorem declsOfList_removeNsKid (pfx : Nat) (ks : List Tree) :
-    declsOf.declsOfList (removeNsKid pfx ks) = declsOf.declsOfList ks := by
+    declsOfTree.declsOfList (removeNsKid pfx ks) = declsOfTree.declsOfList ks := by
   induction ks with
   | nil => rfl
   | cons k rest ih =>
     by_cases hc : (k.value.category == Category.namespace) = true
-    · obtain ⟨p, n, hv⟩ := (category_namespace_iff _).1 hc
+    · obtain ⟨p, n, hv⟩ := (category_namespace_iff_ex _).1 hc
       simp only [removeNsKid, hv]
       by_cases hp : p = pfx
-      · simp [hp, declsOf.declsOfList, hc]
+      · simp [hp, declsOfTree.declsOfList, hc]
       · have : (p == pfx) = false := by simpa using hp
-        simp [this, declsOf.declsOfList, hc, ih]
+        simp [this, declsOfTree.declsOfList, hc, ih]
     · have : removeNsKid pfx (k :: rest) = k :: rest := by
         unfold removeNsKid
         split
-        · rename_i p n h; exact absurd ((category_namespace_iff _).2 ⟨p, n, h⟩) hc
+        · rename_i p n h; exact absurd ((category_namespace_iff_ex _).2 ⟨p, n, h⟩) hc
         · rfl
       rw [this]
 
@@ -144,7 +144,7 @@ theorem declsOfKids_removeNsKid (pfx : Nat) (ks : List Tree) :
   | nil => exact List.Sublist.refl _
   | cons k rest ih =>
     by_cases hc : (k.value.category == Category.namespace) = true
-    · obtain ⟨p, n, hv⟩ := (category_namespace_iff _).1 hc
+    · obtain ⟨p, n, hv⟩ := (category_namespace_iff_ex _).1 hc
       simp only [removeNsKid, hv]
       by_cases hp : p = pfx
       · simp only [hp, beq_self_eq_true, ↓reduceIte, declsOfKids, hv]
@@ -155,7 +155,7 @@ theorem declsOfKids_removeNsKid (pfx : Nat) (ks : List Tree) :
     · have : removeNsKid pfx (k :: rest) = k :: rest := by
         unfold removeNsKid
         split
-        · rename_i p n h; exact absurd ((category_namespace_iff _).2 ⟨p, n, h⟩) hc
+        · rename_i p n h; exact absurd ((category_namespace_iff_ex _).2 ⟨p, n, h⟩) hc
         · rfl
       rw [this]
       exact List.Sublist.refl _
@@ -164,7 +164,7 @@ theorem NsShrink.removeNsKidsOf (pfx : Nat) (t : Tree) : NsShrink (removeNsKidsO
   obtain ⟨v, ks⟩ := t
   refine ⟨rfl, ?_, ?_⟩
   · simp [XotModel.removeNsKidsOf, stripNs, stripNsList_removeNsKid]
-  · simp only [XotModel.removeNsKidsOf, declsOf, nsDecls_node, declsOfList_removeNsKid]
+  · simp only [XotModel.removeNsKidsOf, declsOfTree, nsDecls_node, declsOfList_removeNsKid]
     exact .cons (declsOfKids_removeNsKid pfx ks) (AllSub.refl _)
 
 /-! ### Modifying below a path -/
@@ -175,7 +175,7 @@ theorem category_eq_of_value {a b : Tree} (h : a.value = b.value) :
 theorem modify_shrink (f : Tree → Tree) (hf : ∀ k, NsShrink (f k) k) (ks : List Tree) : ∀ (i : Nat),
     declsOfKids (ks.modify i f) = declsOfKids ks ∧
     stripNs.stripNsList (ks.modify i f) = stripNs.stripNsList ks ∧
-    AllSub (declsOf.declsOfList (ks.modify i f)) (declsOf.declsOfList ks) := by
+    AllSub (declsOfTree.declsOfList (ks.modify i f)) (declsOfTree.declsOfList ks) := by
   induction ks with
   | nil => intro i; simp [AllSub.refl]
   | cons k rest ih =>
@@ -184,14 +184,14 @@ theorem modify_shrink (f : Tree → Tree) (hf : ∀ k, NsShrink (f k) k) (ks : L
     | zero =>
       have h := hf k
       simp only [List.modify_zero_cons, declsOfKids, h.value, stripNs.stripNsList,
-        declsOf.declsOfList, h.strip, true_and]
+        declsOfTree.declsOfList, h.strip, true_and]
       split
       · exact AllSub.refl _
       · exact h.decls.append (AllSub.refl _)
     | succ j =>
       obtain ⟨h1, h2, h3⟩ := ih j
       simp only [List.modify_succ_cons, declsOfKids, h1, stripNs.stripNsList, h2,
-        declsOf.declsOfList, true_and]
+        declsOfTree.declsOfList, true_and]
       split
       · exact h3
       · exact (AllSub.refl _).append h3
@@ -207,7 +207,7 @@ theorem NsShrink.scopeModifyAt (f : Tree → Tree) (hf : ∀ k, NsShrink (f k) k
     obtain ⟨h1, h2, h3⟩ := modify_shrink (fun k => XotModel.scopeModifyAt f k p) (fun k => ih k) ks i
     refine ⟨rfl, ?_, ?_⟩
     · simp [XotModel.scopeModifyAt, stripNs, h2]
-    · simp only [XotModel.scopeModifyAt, declsOf, nsDecls_node, h1]
+    · simp only [XotModel.scopeModifyAt, declsOfTree, nsDecls_node, h1]
       exact .cons (List.Sublist.refl _) h3
 
 theorem NsShrink.removeNamespacesAt (path : Path) (pfxs : List Nat) :
